@@ -1,3 +1,36 @@
-(* C16 - placeholder so that the pipeline runs; theorems follow below once proved. *)
-From Coq Require Import ZArith List Bool.
-From Hexital Require Import Base.Prelude Base.Num Model.Manager Model.Candle Model.Readings Model.Analysis.
+(* C16 - Pattern and movement functions are causal and index-consistent. *)
+From Coq Require Import ZArith List String Bool.
+From Hexital Require Import Base.Prelude Base.Num Model.Manager Model.Candle Model.Readings Model.Analysis
+  Model.Engine Proofs.AnalysisProofs.
+Import ListNotations.
+Local Open Scope Z_scope.
+
+(* For every one of the 16 movement and 4 pattern functions, every argument (length,
+   lookback, names with at most one dot), every candle list whatever readings it carries
+   (missing, numbers, bools, dicts) and every valid index i: evaluating at index i equals
+   evaluating at the default (latest) position on the list truncated after candle i -
+   value or exception alike.  A result for candle i never depends on later candles. *)
+Theorem C16_causal :
+  forall (O : NumOps) (f : afun) (cs : list (cd (payload O))) (i : Z),
+  wf_afun f = true -> 0 <= i < zlen cs ->
+  run_afun O f cs (Some i) = run_afun O f (firstn (Z.to_nat (i + 1)) cs) None.
+Proof. exact causal. Qed.
+Print Assumptions C16_causal.
+
+(* ... and equals evaluating at the equivalent negative index *)
+Theorem C16_negative_index :
+  forall (O : NumOps) (f : afun) (cs : list (cd (payload O))) (i : Z),
+  0 <= i < zlen cs -> run_afun O f cs (Some (i - zlen cs)) = run_afun O f cs (Some i).
+Proof. exact negative_index_consistent. Qed.
+Print Assumptions C16_negative_index.
+
+(* wrapped as an indicator (Amorph), the reading computed for index i is the function at i *)
+Theorem C16_amorph_is_the_function :
+  forall (O : NumOps) rec (f : afun) name (st : store O) (i : Z),
+  calc_reading O rec (top O (K_AMORPH f) name 4) st i = (v <- run_afun O f st (Some i) ;; Ok (v, st)).
+Proof. reflexivity. Qed.
+Print Assumptions C16_amorph_is_the_function.
+
+(* the pre-repair window of highestbar (finding F7) read candles after i: refuted *)
+Example C16_example_names : wf_afun (A_crossover "a" "MACD_12_26_9.MACD" 3) = true /\ wf_afun (A_above "a.b.c" "x") = false.
+Proof. split; reflexivity. Qed.
